@@ -19,7 +19,7 @@ VARIABLE vL
 
 Mk(r, words) == [r |-> r, mem |-> [a \in r.pc .. r.pc + Len(words) - 1 |-> words[a - r.pc + 1]], io |-> [a \in {} |-> 0],
                  acc |-> <<>>, out |-> "ok", idle |-> FALSE, lat |-> <<0, 0, 0, 0>>, vaddr |-> 0, vctx |-> 0,
-                 miu |-> [base |-> 32768, z |-> 0]]
+                 miu |-> MiuReset]
 Step(s) == CoreCycle([s EXCEPT !.acc = <<>>])
 \* keep stack and code out of the MMIO window, away from each other, no loop, no repeat, no interrupt
 Quiet(r0) == [r0 EXCEPT !.pc = 512 + (r0.pc % 256), !.sp = 4096 + (r0.sp % 256), !.lp = 0, !.bcn = 0, !.rep = 0, !.ie = 0,
